@@ -87,3 +87,11 @@ func verifRoundTripBMPPeerHeader(h *BMPPeerHeader) bool {
 	}
 	return g.PeerBGPID == h.PeerBGPID
 }
+
+// C19 tier B: checked without annotations - every bounds/index/division/make obligation of the real body is
+// discharged with uncontracted callees replaced by arbitrary results and effects
+//@ props C19
+//@ func (*BMPStatisticsReport).ParseBody
+//@   claims bounds div0 make
+//@ func (*BMPPeerDownNotification).ParseBody
+//@   claims bounds div0 make
